@@ -77,3 +77,9 @@ mod tests {
         assert!(matcher.matches(&abbbc, &mut deps.new_matcher_io()));
     }
 }
+
+// Verification hook: harnesses live outside the repository (see MANIFEST.hooks of the verifier).
+#[cfg(kani)]
+pub(crate) mod verif_kani {
+    include!(concat!(env!("FINDUTILS_VERIF_DIR"), "/harness/m_path.rs"));
+}
